@@ -132,7 +132,7 @@ def _targets(case, tmp):
 def _spec(case, tmp, algo=None, **extra):
     rows, cols = case["shape"]
     paths, arrays, wpaths, warrays = _targets(case, tmp)
-    args = {"tag": "cal", "p0": 1.0, "p1": [1.0, 1.0], "offset": 0.0}
+    args = {"tag": "cal", "p0": 1.0, "p1": [1.0, 1.0], "offset": 0.0, "noise": float(case.get("noise", 0.0))}
     pipe = {"groups": {"charge_collection": [{"name": "cal", "func": "vprobes.models.cal_probe", "enabled": True, "arguments": args}]}, "yaml_perm": 0}
     params = [{"key": v["key"], "values": "_" if v["scalar"] else ["_"] * v["n"], "logarithmic": v["log"], "boundaries": v["boundaries"]} for v in VARS]
     ff = {"func": FITNESS[case["fitness"]]}
@@ -151,6 +151,8 @@ def _spec(case, tmp, algo=None, **extra):
         mode["weights_from_file"] = wpaths
     mode.update(extra)
     spec = {"detector": simple_spec("CCD", row=rows, col=cols), "pipeline": pipe, "mode": mode}
+    if case.get("pipeline_seed") is not None:
+        spec["pipeline_seed"] = case["pipeline_seed"]
     if case["time_domain"]:
         spec["readout"] = {"times": [float(i + 1) for i in range(case["steps"])]}
     return spec, arrays, warrays
@@ -163,8 +165,12 @@ def _sim(case, params, k):
     rows, cols = case["shape"]
     vals = {"p0": float(params[0]), "p1": [float(params[1]), float(params[2])]}
     frames = []
+    # every exposure of a seeded calibration starts from the declared seed (numpy's legacy global stream)
+    rs = np.random.RandomState(case["pipeline_seed"]) if case.get("noise") else None
     for s in range(case["steps"]):
         f = cal_frame((rows, cols), vals, step=s, offset=case["offsets"][k] + 1000.0 * 0.5)
+        if rs is not None:
+            f = f + rs.normal(0.0, float(case["noise"]), size=f.shape)
         if case["result_type"] == "signal":
             f = f * 0.5
         elif case["result_type"] == "image":
@@ -293,6 +299,10 @@ def run_cases(draw):
     c["islands"] = draw(st.integers(1, 2))
     c["evolutions"] = draw(st.integers(1, 3))
     c["pygmo_seed"] = draw(st.integers(0, 100000))
+    # a stochastic pipeline made reproducible by the declared pipeline_seed: the figure of merit and the returned data are those of the seeded run
+    if draw(st.booleans()):
+        c["noise"], c["pipeline_seed"] = draw(st.sampled_from([0.5, 3.0])), draw(st.integers(0, 2**31 - 1))
+        c["islands"] = 1  # islands evolve in parallel threads and seeded stochastic runs race on the global generator there (C07's known finding K2)
     return c
 
 
@@ -303,6 +313,7 @@ def body_run(case, rec):
     if _degenerate_chi2(case):
         rec.exclude("chi2_with_too_few_points")
         case = dict(case, fitness="squared")
+    rec.cls("run:seeded_noise" if case.get("noise") else "run:deterministic")
     rec.cls(f"run:range:{case['range_class']}", f"run:weights:{case['weights']}", f"run:islands:{case['islands']}", "run:time_domain" if case["time_domain"] else "run:single_readout")
     rec.nt(True)
     spec, targets, warrays = _spec(case, rec.tmp, algo={"type": "sade", "generations": 2, "population_size": 8},
@@ -326,7 +337,8 @@ def body_run(case, rec):
     for name, restricted in ((f"/simulated/{b}", True), (f"/full_size/simulated_{b}", False)):
         got = None
         with rec.must_not_raise(f"simulated_data_not_computable[{name.split('/')[1]}]"):
-            got = np.asarray(res[name].compute().values, dtype=float)  # (island, processor, readout_time, y, x)
+            with pyx.scheduler("synchronous", 1):  # (seeded stochastic runs under a threaded scheduler race on the global generator: C07's K2)
+                got = np.asarray(res[name].compute().values, dtype=float)  # (island, processor, readout_time, y, x)
         if got is None:
             continue
         for isl in range(fit.shape[0]):
